@@ -152,10 +152,10 @@ pub struct PanicInfo { pub file: String, pub line: u32, pub message: String }
 
 impl PanicInfo {
     pub fn signature(&self) -> String {
-        let msg: String = self.message.chars().take(60).collect();
+        let msg: String = self.message.lines().next().unwrap_or("").chars().take(60).collect();
         // strip digits so that values in messages do not unkey a finding
         let msg: String = msg.chars().map(|c| if c.is_ascii_digit() { '#' } else { c }).collect();
-        format!("panic:{}:{}", self.file, msg)
+        format!("panic:{}:{}:L{}", self.file, msg, self.line)
     }
     pub fn to_failure(&self, prefix: &str) -> Failure {
         Failure::new(format!("{}{}", prefix, self.signature()), format!("panic at {}:{}: {}", self.file, self.line, self.message))
@@ -178,6 +178,7 @@ pub fn install_panic_hook() {
         // generated sources (lalrpop output) live in a hashed build directory
         let file = match file.find("/out/parse/") { Some(i) => format!("out{}", &file[i + 4..]), None => file };
         let file = if file.starts_with("/rustc/") { format!("rustc/{}", file.splitn(4, '/').nth(3).unwrap_or("")) } else { file };
+        if std::env::var("TV_BACKTRACE").is_ok() { eprintln!("panic at {}:{}: {}\n{}", file, line, message, std::backtrace::Backtrace::force_capture()); }
         LAST_PANIC.with(|p| *p.borrow_mut() = Some(PanicInfo { file, line, message }));
     }));
 }
@@ -197,6 +198,9 @@ pub fn catch<T>(f: impl FnOnce() -> T) -> Result<T, PanicInfo> {
 pub struct GuardAlloc;
 pub static ALLOC_LIMIT: AtomicUsize = AtomicUsize::new(usize::MAX);
 pub static ALLOC_REFUSED: AtomicU64 = AtomicU64::new(0);
+/// largest single request seen since the last reset (only requests >= 1 MiB are tracked)
+pub static ALLOC_MAX_SINGLE: AtomicUsize = AtomicUsize::new(0);
+#[inline] fn track(size: usize) { if size >= (1 << 20) { ALLOC_MAX_SINGLE.fetch_max(size, Ordering::Relaxed); } }
 
 unsafe impl std::alloc::GlobalAlloc for GuardAlloc {
     unsafe fn alloc(&self, layout: std::alloc::Layout) -> *mut u8 {
@@ -204,6 +208,7 @@ unsafe impl std::alloc::GlobalAlloc for GuardAlloc {
             ALLOC_REFUSED.store(layout.size() as u64, Ordering::SeqCst);
             return std::ptr::null_mut();
         }
+        track(layout.size());
         std::alloc::System.alloc(layout)
     }
     unsafe fn dealloc(&self, ptr: *mut u8, layout: std::alloc::Layout) { std::alloc::System.dealloc(ptr, layout) }
@@ -212,6 +217,7 @@ unsafe impl std::alloc::GlobalAlloc for GuardAlloc {
             ALLOC_REFUSED.store(layout.size() as u64, Ordering::SeqCst);
             return std::ptr::null_mut();
         }
+        track(layout.size());
         std::alloc::System.alloc_zeroed(layout)
     }
     unsafe fn realloc(&self, ptr: *mut u8, layout: std::alloc::Layout, new_size: usize) -> *mut u8 {
@@ -219,6 +225,7 @@ unsafe impl std::alloc::GlobalAlloc for GuardAlloc {
             ALLOC_REFUSED.store(new_size as u64, Ordering::SeqCst);
             return std::ptr::null_mut();
         }
+        track(new_size);
         std::alloc::System.realloc(ptr, layout, new_size)
     }
 }
@@ -244,10 +251,12 @@ pub struct ShardStats {
     pub samples: Vec<Value>,
     pub known_hits: BTreeMap<String, u64>,
     pub failure: Option<(Value, Failure)>,
+    /// survey mode (TV_SURVEY=1, development only): signature -> (count, first case, message)
+    pub survey: BTreeMap<String, (u64, Value, String)>,
 }
 
 impl ShardStats {
-    fn new() -> Self { ShardStats { evaluations: 0, sub_evaluations: 0, passes: 0, discards: BTreeMap::new(), labels: BTreeMap::new(), nontrivial: BTreeSet::new(), samples: vec![], known_hits: BTreeMap::new(), failure: None } }
+    fn new() -> Self { ShardStats { evaluations: 0, sub_evaluations: 0, passes: 0, discards: BTreeMap::new(), labels: BTreeMap::new(), nontrivial: BTreeSet::new(), samples: vec![], known_hits: BTreeMap::new(), failure: None, survey: BTreeMap::new() } }
     pub fn to_json(&self) -> Value {
         json!({
             "evaluations": self.evaluations,
@@ -259,6 +268,7 @@ impl ShardStats {
             "samples": self.samples,
             "known_hits": self.known_hits,
             "failure": self.failure.as_ref().map(|(c, f)| json!({"case": c, "signature": f.signature, "message": f.message})),
+            "survey": self.survey.iter().map(|(k, (n, c, m))| json!({"signature": k, "count": n, "case": c, "message": m})).collect::<Vec<_>>(),
         })
     }
 }
@@ -288,6 +298,7 @@ pub fn eval_case(prop: &dyn Property, case: &Value, known: &Known, strict: bool)
 pub fn run_shard(prop: &'static dyn Property, tier: Tier, seed: u64, cases: u32, shard: usize, nshards: usize, known: &Known) -> ShardStats {
     let stats = RefCell::new(ShardStats::new());
     let failed = std::cell::Cell::new(false);
+    let survey = std::env::var("TV_SURVEY").map_or(false, |v| v == "1");
     // cheap leak: one per shard
     let known_static: &'static Known = Box::leak(Box::new(known.clone()));
 
@@ -319,6 +330,16 @@ pub fn run_shard(prop: &'static dyn Property, tier: Tier, seed: u64, cases: u32,
             if known_static.matches(&f.signature) {
                 ctx.known_hits.push(f.signature.clone());
                 out = Outcome::Discard("known-finding".into());
+            }
+        }
+        if survey {
+            if let Outcome::Fail(f) = &out {
+                let mut st = stats.borrow_mut();
+                let e = st.survey.entry(f.signature.clone()).or_insert((0, case.clone(), f.message.clone()));
+                e.0 += 1;
+                if case.to_string().len() < e.1.to_string().len() { e.1 = case.clone(); e.2 = f.message.clone(); }
+                drop(st);
+                out = Outcome::Discard("survey".into());
             }
         }
         if !failed.get() { record(case, &out, &ctx); }
